@@ -56,7 +56,7 @@ fn main() {
         match wl.as_str() {
             // upper-layer workloads observe the API; chmux hook events would only bloat their traces
             "rwlock" => install_hook_sink_for(&["rw_"]),
-            "robs_script" | "bcast" | "watch" | "typed_base" | "typed_mpsc" => {}
+            "robs_script" | "bcast" | "watch" | "typed_base" | "typed_mpsc" | "rtc" | "rtc_once" => {}
             _ => install_hook_sink(),
         }
         match wl.as_str() {
@@ -127,6 +127,14 @@ fn main() {
             }
             "block" => {
                 rt.block_on(chmux_block::scenario(s));
+            }
+            "rtc" => {
+                let o = rtc::RtcOpts { remote: get("remote", 1) != 0, cut: get("cut", 0) != 0, oversize: get("oversize", 0) != 0,
+                                       undecodable: get("undecodable", 0) != 0, flavour: get("flavour", 4) };
+                rt.block_on(rtc::scenario(s, &o));
+            }
+            "rtc_once" => {
+                rt.block_on(rtc::once_scenario(s, get("remote", 1) != 0));
             }
             "typed_base" => {
                 rt.block_on(typed::base_scenario(s, get("cut", 0) != 0, get("variant", 0)));
